@@ -176,6 +176,6 @@ def strat_sorter(tier):
 
 
 PARTS = [
-    Part("hdc", check_hdc, lambda tier: H.hdc_case(tier), quick=400, thorough=7000, shrink_quick=False, min_per_shard=4, min_nontrivial_frac=0.25),
+    Part("hdc", check_hdc, lambda tier: H.hdc_case(tier), max_workers=12, quick=400, thorough=7000, shrink_quick=False, min_per_shard=4, min_nontrivial_frac=0.25),
     Part("sorter", check_sorter, strat_sorter, quick=1500, thorough=40000, min_nontrivial_frac=0.25),
 ]
